@@ -345,6 +345,7 @@ func paramsToArgs(sig *types.Signature) []*internal.Elem {
 }
 
 func inferFunc(pkg *Package, fn *internal.Elem, sig *types.Signature, targs []types.Type, args []*Element, flags InstrFlags) ([]types.Type, types.Type, error) {
+	orig := args
 	args, err := checkInferArgs(pkg, fn, sig, args, flags)
 	if err != nil {
 		return nil, nil, err
@@ -356,6 +357,22 @@ func inferFunc(pkg *Package, fn *internal.Elem, sig *types.Signature, targs []ty
 		tparams[i] = tp.At(i)
 	}
 	params := sig.Params()
+	if nreq := params.Len(); sig.Variadic() && flags&InstrFlagEllipsis == 0 && len(orig) >= nreq {
+		// Infer from one parameter of the element type per variadic argument, as go/types
+		// does: an untyped constant argument then takes the type inferred from the typed
+		// arguments (append(s8, 1), min(x, 1)) instead of imposing its default type.
+		if t, ok := params.At(nreq - 1).Type().(*types.Slice); ok {
+			vars := make([]*types.Var, len(orig))
+			for i := range vars {
+				if i < nreq-1 {
+					vars[i] = params.At(i)
+				} else {
+					vars[i] = types.NewParam(token.NoPos, nil, "", t.Elem())
+				}
+			}
+			params, args = types.NewTuple(vars...), orig
+		}
+	}
 	// Handle implicit cast with single type param but multiple args:
 	// Keep only the first param/arg that depends on the type param and has a typed value.
 	if pkg.implicitCast != nil && len(tparams) == 1 && len(args) > 1 {
